@@ -81,6 +81,11 @@ def families(rng):
     F.append(("two linked datasets + scale", {"megacomplex": {"s": {"type": "decay-parallel", "compartments": ["a", "b"], "rates": ["k1", "k3"]}}, "dataset_groups": {"default": {"link_clp": True}},
                                               "dataset": {"d1": {"megacomplex": ["s"]}, "d2": {"megacomplex": ["s"], "scale": "sc"}}}, base + [["sc", float(rng.uniform(0.5, 3.0)), {"vary": False}]],
               {"d1": ["a", "b"], "d2": ["a", "b"]}, False, "parallel"))
+    F.append(("three linked datasets + scales, overlapping axes",
+              {"megacomplex": {"s": {"type": "decay-parallel", "compartments": ["a", "b"], "rates": ["k1", "k3"]}}, "dataset_groups": {"default": {"link_clp": True}},
+               "dataset": {"d1": {"megacomplex": ["s"]}, "d2": {"megacomplex": ["s"], "scale": "sc"}, "d3": {"megacomplex": ["s"], "scale": "sc3"}}},
+              base + [["sc", float(rng.uniform(1.5, 3.0)), {"vary": False}], ["sc3", float(rng.uniform(0.3, 0.7)), {"vary": False}]],
+              {"d1": ["a", "b"], "d2": ["a", "b"], "d3": ["a", "b"]}, False, "parallel"))
     F.append(("three unlinked datasets", {"megacomplex": {"s": {"type": "decay-sequential", "compartments": ["a", "b"], "rates": ["k1", "k2"]}}, "dataset_groups": {"default": {"link_clp": False}},
                                           "irf": IRF_G, "dataset": {"d1": {"megacomplex": ["s"], "irf": "g"}, "d2": {"megacomplex": ["s"], "irf": "g"}, "d3": {"megacomplex": ["s"], "irf": "g"}}}, base,
               {"d1": ["a", "b"], "d2": ["a", "b"], "d3": ["a", "b"]}, False, "sequential"))
@@ -118,14 +123,30 @@ def run_family(fam, rng, rec, log, counters):
     lam = np.sort(rng.uniform(600, 700, int(rng.integers(6, 14))))
     data, gen_clp = {}, {}
     shared = None
-    for d in spec["dataset"]:
+    lam_all = lam
+    lam_by = {}
+    nds = len(spec["dataset"])
+    for di, d in enumerate(spec["dataset"]):
+        if "overlapping axes" in name:
+            # each dataset sees a window of the common wavelength axis; neighbours overlap partially
+            n = lam_all.size
+            lo = (di * n) // (nds + 1)
+            hi = min(n, lo + (2 * n) // (nds + 1) + 1)
+            sel = np.arange(lo, hi)
+            lam = lam_all[sel]
+        lam_by[d] = lam
         try:
             if full:
                 ds = simulate(model, d, p, {"time": t, "spectral": lam})
             else:
                 labs = clp_labels[d]
-                if shared is None or shared.shape[1] != len(labs):
-                    shared = rng.uniform(0.5, 2.0, (lam.size, len(labs)))
+                if shared is None or shared.shape[1] != len(labs) or "overlapping axes" in name:
+                    if "overlapping axes" in name:
+                        if di == 0:
+                            shared_all = rng.uniform(0.5, 2.0, (lam_all.size, len(labs)))
+                        shared = shared_all[sel]
+                    else:
+                        shared = rng.uniform(0.5, 2.0, (lam.size, len(labs)))
                 scl = p.get(spec["dataset"][d]["scale"]).value if "scale" in spec["dataset"][d] else 1.0
                 # linked datasets share clps (times the dataset scale); clp argument in PERMUTED label order
                 perm = rng.permutation(len(labs))
@@ -153,6 +174,7 @@ def run_family(fam, rng, rec, log, counters):
     # noise reproducibility on the first dataset
     d0 = next(iter(spec["dataset"]))
     kw = {} if full else {"clp": gen_clp[d0]}
+    lam = lam_by[d0]
     n1 = simulate(model, d0, p, {"time": t, "spectral": lam}, noise=True, noise_std_dev=0.1, noise_seed=123, **kw)
     n2 = simulate(model, d0, p, {"time": t, "spectral": lam}, noise=True, noise_std_dev=0.1, noise_seed=123, **kw)
     n3 = simulate(model, d0, p, {"time": t, "spectral": lam}, noise=True, noise_std_dev=0.1, noise_seed=124, **kw)
